@@ -325,6 +325,23 @@ async fn check_c02_device(
                 ap.vault().clone()
             };
             let sv = vault_view_cached(&served, &key, kc).await?;
+            // persisted vault store (file / rows)
+            let mirror: sos_vault::Vault = match &dev.target {
+                sos_backend::BackendTarget::FileSystem(paths) => {
+                    let p = paths.with_account_id(&dev.account_id).vault_path(&id);
+                    sos_core::decode(&std::fs::read(&p)?).await?
+                }
+                sos_backend::BackendTarget::Database(_, client) => {
+                    sos_database::entity::FolderEntity::compute_folder_vault(client, &id).await?
+                }
+            };
+            let mv = vault_view_cached(&mirror, &key, kc).await?;
+            let m = folder_key_sorted(&mv);
+            if m != folder_key_sorted(&sv) {
+                let (a, b) = (m["secrets"].as_array().unwrap().len(), folder_key_sorted(&sv)["secrets"].as_array().unwrap().len());
+                let what = if a > b { "mirror_has_extra_secret" } else if a < b { "mirror_misses_secret" } else { "content" };
+                fails.push("C02", format!("after_merge:mirror_differs_from_served:{}:{}", what, cls), format!("after {} the persisted vault differs from the served folder ({})", when, what), json!({"when": when, "device": dev.idx}));
+            }
             let (r, s) = (folder_key_sorted(&rv), folder_key_sorted(&sv));
             if r != s {
                 let what = if r["secrets"] != s["secrets"] {
@@ -579,6 +596,70 @@ async fn run_scenario(t: &Template, sc: &Scenario, work: &Path) -> Value {
                 }
             }
         }
+        // by-product mode: local edits AFTER the merges (merge replays leave
+        // the mirror in shapes local edits never produce), then the same
+        // oracles and a fresh reload of every editing device
+        let mut reload_failures: Vec<(usize, String)> = vec![];
+        if std::env::var("SYNCX_BYPRODUCT").is_ok() {
+            for d in 0..n_edit {
+                clock::set_device(d);
+                let r: Result<()> = async {
+                    let default = vid(&t.default_folder);
+                    let ids: Vec<SecretId> = {
+                        let a = devices[d].account.lock().await;
+                        a.list_secret_ids(&default).await?
+                    };
+                    // delete the newest secret of the default folder and
+                    // update the oldest one that is left
+                    if let Some(last) = ids.last() {
+                        let mut a = devices[d].account.lock().await;
+                        a.delete_secret(last, AccessOptions { folder: Some(default), ..Default::default() }).await?;
+                    }
+                    if ids.len() > 1 {
+                        let (m, s) = gen::secret("note", 1, &format!("after-merge-d{}", d));
+                        let mut a = devices[d].account.lock().await;
+                        a.update_secret(&ids[0], m, Some(s), AccessOptions { folder: Some(default), ..Default::default() }).await?;
+                    }
+                    Ok(())
+                }
+                .await;
+                if let Err(e) = r {
+                    reload_failures.push((d, format!("edit after merge failed: {}", e)));
+                    continue;
+                }
+                check_c02_device(&devices[d], "a local edit after the merges", &cls, &mut fails, &mut kcs[d]).await;
+                check_c20_device(&devices[d], "a local edit after the merges", &cls, &mut fails).await;
+                // reload: a fresh account object on a copy of the data dir
+                let live = device_view(&devices[d]).await;
+                let copy = work.join(format!("reload-d{}", d));
+                let _ = std::fs::remove_dir_all(&copy);
+                if fsutil::copy_dir(&devices[d].dir, &copy).is_ok() {
+                    match Dev::open(&copy, sc.client_backend, account_id, vkit::acct::password()).await {
+                        Ok(mut fresh) => {
+                            let fv = vkit::acct::account_view(&mut fresh.account, true).await;
+                            if let (Ok(l), Ok(f)) = (&live, &fv) {
+                                let mut fo: Vec<Value> = f.folders.iter().map(folder_key_sorted).collect();
+                                fo.sort_by(|a, b| a["id"].as_str().unwrap().cmp(b["id"].as_str().unwrap()));
+                                if *l != fo {
+                                    let what = if l.len() != fo.len() { "folder_set".to_string() } else {
+                                        let mut w = "content".to_string();
+                                        for (x, y) in l.iter().zip(fo.iter()) {
+                                            let (a, b) = (x["secrets"].as_array().unwrap().len(), y["secrets"].as_array().unwrap().len());
+                                            if b > a { w = "deleted_secret_back_after_reload".into(); } else if b < a { w = "secret_missing_after_reload".into(); }
+                                        }
+                                        w
+                                    };
+                                    fails.push("C02", format!("after_merge:reload_differs_from_served:{}:{}", what, cls), format!("after merges and a local edit, a fresh sign-in serves different folders than the live account ({})", what), json!({"device": d}));
+                                }
+                            }
+                            fresh.close().await;
+                        }
+                        Err(e) => fails.push("C02", format!("after_merge:reload_failed:{}", cls), format!("fresh sign-in after merges failed: {}", e), json!({"device": d})),
+                    }
+                }
+            }
+        }
+        let _ = reload_failures;
         // observer pulls
         let obs = n_edit;
         let r = sync_one(obs).await;
